@@ -18,6 +18,9 @@ HIDDEN_TABLE = "__H"
 NICKS = ["aa", "bb", "cc"]
 FIELDS = ["f0", "f1", "f2", "f3", "f4"]
 HIDDEN_FIELD = "__h0"
+# hidden names that are not identifiers: only the prefix `__` makes a name hidden
+EXOTIC_HIDDEN_FIELDS = ["__", "__-r", "__ t"]
+EXOTIC_HIDDEN_TABLES = ["__-s", "__"]
 VARS = ["v0", "v1", "v2"]
 OPTS = ["o0", "o1"]
 WORDS = ["x", "abc", "k", "row", "a b", "zz_top", "q9"]
@@ -52,6 +55,12 @@ class Gen:
     def p(self, k):
         return self.rng.random() < self.w[k]
 
+    def hidden_table_name(self):
+        if self.rng.random() < self.w.get("exotic_hidden", 0.25):
+            self.features.add("exotic_hidden_name")
+            return self.rng.choice(EXOTIC_HIDDEN_TABLES)
+        return HIDDEN_TABLE
+
     def recipe(self):
         rng = self.rng
         ntop = rng.randint(1, 4)
@@ -60,12 +69,13 @@ class Gen:
             if self.p("var_stmt"):
                 plan.append(("var", rng.choice(self.VARS)))
             else:
-                table = HIDDEN_TABLE if self.p("hidden_table") else rng.choice(self.TABLES)
+                table = self.hidden_table_name() if self.p("hidden_table") else rng.choice(self.TABLES)
                 nick = rng.choice(self.NICKS) if self.p("nick") else None
                 plan.append(("obj", table, nick))
         if not any(p[0] == "obj" for p in plan):
             plan.append(("obj", rng.choice(self.TABLES), None))
-        self.all_top_names = [p[1] for p in plan if p[0] == "obj"] + [p[2] for p in plan if p[0] == "obj" and p[2]]
+        self.all_top_names = [p[1] for p in plan if p[0] == "obj" and p[1].replace("_", "a").isalnum()] + \
+                             [p[2] for p in plan if p[0] == "obj" and p[2]]
         self.options = []
         self.opt_types = {}
         if rng.random() < 0.25:
@@ -108,9 +118,9 @@ class Gen:
     def template(self, depth, table=None, nick=None, top=False):
         rng = self.rng
         if table is None:
-            table = HIDDEN_TABLE if self.p("hidden_table") else rng.choice(self.TABLES)
+            table = self.hidden_table_name() if self.p("hidden_table") else rng.choice(self.TABLES)
             nick = rng.choice(self.NICKS) if self.p("nick") and depth < 2 else None
-        if table == HIDDEN_TABLE:
+        if table.startswith("__"):
             self.features.add("hidden_table")
         if nick:
             self.features.add("nick")
@@ -134,7 +144,9 @@ class Gen:
                 count = ["formula", [["e", ["int", rng.randint(0, 2)]]]]
                 self.features.add("count_formula")
         mine = []
-        self.known.setdefault(table, {})
+        ident = lambda n: n.replace("_", "a").isalnum()      # usable as a Jinja identifier
+        if ident(table):
+            self.known.setdefault(table, {})
         if nick:
             self.known.setdefault(nick, {})
         saved_vars = dict(self.vars)
@@ -143,14 +155,20 @@ class Gen:
         nfields = rng.randint(0, 4)
         names = rng.sample(self.FIELDS, k=min(nfields, len(self.FIELDS)))
         if names and self.p("hidden_field"):
-            names[rng.randrange(len(names))] = HIDDEN_FIELD
+            hf = HIDDEN_FIELD
+            if rng.random() < self.w.get("exotic_hidden", 0.25):
+                hf = rng.choice(EXOTIC_HIDDEN_FIELDS)
+                self.features.add("exotic_hidden_name")
+            names[rng.randrange(len(names))] = hf
             self.features.add("hidden_field")
         for name in names:
             d, ty = self.fdef(depth, mine, allow_nested=(depth < 2))
             fields.append([name, d])
+            if not ident(name):
+                continue
             mine.append((name, ty))
             # several templates may feed one table / nickname: the type becomes uncertain
-            for key in ([table] + ([nick] if nick else [])):
+            for key in (([table] if ident(table) else []) + ([nick] if nick else [])):
                 old = self.known[key].get(name)
                 self.known[key][name] = ty if old in (None, ty) else "mixed"
         friends = []
